@@ -672,6 +672,8 @@ def bitwise_xor_simplifier_minmax(a, b):
 
     if u.op != "__xor__":
         return None
+    if len(u.args) != 2:
+        return None
 
     if len(t.args) != 2:
         return None
